@@ -13,9 +13,12 @@ package main
 // "<kind of the first differing operation>:<field>"), and every execution's trace is also written as
 // a case for the model: `run` for the copy flavour, `run_alias_trace` for the alias flavour
 // (Corr/C18.v).  DCR histories (generator of suite c12) are replayed the same way, Go side only.
+// State that lives OUTSIDE the storages (what clients publish at jwks_uri, sector_identifier_uri and
+// request_uri, their notification endpoints, the per-process anonymous jwt-bearer client) and the
+// world events that change it between requests: suite_c18_remote.go (Go side only; the model has no
+// such operations and no private_key_jwt / jwks_uri clients).
 
 import (
-	"context"
 	"encoding/json"
 	"fmt"
 	"math/rand"
@@ -49,21 +52,7 @@ const (
 	c18OpPutClient = "C18PutClient"
 )
 
-func c18IsPseudo(o Op) bool { return o.Kind == c18OpDelClient || o.Kind == c18OpPutClient }
-
-func c18ExecOp(w *World, o Op) Obs {
-	switch o.Kind {
-	case c18OpDelClient:
-		_ = w.Stores.C.Delete(context.Background(), clientName(o.Client))
-		return Obs{Kind: "Ok"}
-	case c18OpPutClient:
-		if cs := w.clientSpec(o.Client); cs != nil {
-			_ = w.Stores.C.Save(context.Background(), cs.build())
-		}
-		return Obs{Kind: "Ok"}
-	}
-	return w.Exec(o)
-}
+// (c18IsPseudo, c18ExecOp: suite_c18_remote.go, with the other world events)
 
 // ---- projected comparison of two observations of the same operation ----
 // (the error code answered to a forged token depends on the bytes of the forgery, e.g. on whether a
@@ -174,18 +163,19 @@ func c18Digest(w *World) []string {
 			nonce = fmt.Sprint(v)
 		}
 		out = append(out, fmt.Sprintf("session client=%s sub=%q granted=%q cb=%s par=%s code=%s ciba=%s policy=%s jkt=%s x5t=%s steps=%s nonce_claim=%q redirect=%q scope=%q state=%q nonce=%q rt=%q rm=%q cc=%q ccm=%q dpop_jkt=%s hint=%q",
-			s.ClientID, s.Subject, s.GrantedScopes, w.c18Name(s.CallbackID, jti), w.c18Name(s.PushedAuthReqID, jti), w.c18Name(s.AuthCode, jti),
+			w.c18ClientLabel(s.ClientID), w.c18ClientLabel(s.Subject), s.GrantedScopes, w.c18Name(s.CallbackID, jti), w.c18Name(s.PushedAuthReqID, jti), w.c18Name(s.AuthCode, jti),
 			w.c18Name(s.CIBAAuthID, jti), s.PolicyID, w.c18Name(s.JWKThumbprint, jti), w.c18Name(s.ClientCertThumbprint, jti), steps, nonce,
 			s.RedirectURI, s.Scopes, s.State, s.Nonce, s.ResponseType, s.ResponseMode, s.CodeChallenge, s.CodeChallengeMethod,
 			w.c18Name(s.DPoPJKT, jti), s.LoginHint))
 	}
 	for _, g := range w.Stores.GrantSessions() {
 		out = append(out, fmt.Sprintf("grant client=%s sub=%q type=%s active=%q granted=%q token=%s refresh=%s code=%s jkt=%s x5t=%s",
-			g.ClientID, g.Subject, g.GrantType, g.ActiveScopes, g.GrantedScopes, w.c18Name(g.TokenID, jti), w.c18Name(g.RefreshToken, jti),
+			w.c18ClientLabel(g.ClientID), w.c18ClientLabel(g.Subject), g.GrantType, g.ActiveScopes, g.GrantedScopes, w.c18Name(g.TokenID, jti), w.c18Name(g.RefreshToken, jti),
 			w.c18Name(g.AuthorizationCode, jti), w.c18Name(g.JWKThumbprint, jti), w.c18Name(g.ClientCertThumbprint, jti)))
 	}
 	for _, c := range w.c18Clients() {
-		out = append(out, fmt.Sprintf("client %s redirects=%q scopes=%q grants=%v resp=%v", c.ID, c.RedirectURIs, c.ScopeIDs, c.GrantTypes, c.ResponseTypes))
+		out = append(out, fmt.Sprintf("client %s redirects=%q scopes=%q grants=%v resp=%v authn=%s jwks_uri=%s sector=%s sub=%s", w.c18ClientLabel(c.ID), c.RedirectURIs, c.ScopeIDs, c.GrantTypes, c.ResponseTypes,
+			c.TokenAuthnMethod, c.PublicJWKSURI, c.SectorIdentifierURI, c.SubIdentifierType))
 	}
 	sort.Strings(out)
 	return out
@@ -258,7 +248,7 @@ type c18Difference struct {
 	Detail string
 }
 
-func (d c18Difference) signature(ops []Op) string { return ops[d.Op].Kind + ":" + d.Field }
+// (signature of a difference: c18Signature, suite_c18_remote.go)
 
 // first difference between two traces of the same operations (withStore: the storage digests count)
 func c18TraceDiff(ops []Op, a, b c18Trace, withStore bool) (int, string, string) {
@@ -337,16 +327,16 @@ func c18Drop(ops []Op, j int) []Op {
 }
 
 func c18Shrink(spec WorldSpec, ops []Op, extra []string, d *c18Difference, withStore bool) ([]Op, []c18Trace, *c18Difference) {
-	sig := d.signature(ops)
+	sig := c18Signature(spec, ops, d)
 	ops = append([]Op(nil), ops[:d.Op+1]...)
 	trs, cur := c18RunAll(spec, ops, extra, withStore)
-	if cur == nil || cur.signature(ops) != sig {
+	if cur == nil || c18Signature(spec, ops, cur) != sig {
 		return nil, nil, nil
 	}
 	for j := len(ops) - 2; j >= 0; j-- {
 		cand := c18Drop(ops, j)
 		t2, d2 := c18RunAll(spec, cand, extra, withStore)
-		if d2 != nil && d2.signature(cand) == sig {
+		if d2 != nil && c18Signature(spec, cand, d2) == sig {
 			cand = cand[:d2.Op+1]
 			ops, trs, cur = cand, t2, d2
 			for k := range trs {
@@ -382,13 +372,7 @@ func c18Finding(h c18History, trs []c18Trace, d *c18Difference) Finding {
 	}
 	var lines []string
 	for i, o := range ops {
-		var s string
-		if c18IsPseudo(o) {
-			s = fmt.Sprintf("%s client %d", o.Kind, o.Client)
-		} else {
-			s = o.coq()
-		}
-		lines = append(lines, fmt.Sprintf("%d: %s", i, s))
+		lines = append(lines, fmt.Sprintf("%d: %s", i, c18Describe(o)))
 	}
 	execs := map[string]any{}
 	for _, t := range t2 {
@@ -398,7 +382,7 @@ func c18Finding(h c18History, trs []c18Trace, d *c18Difference) Finding {
 		}
 		execs[t.Exec.String()] = obs
 	}
-	return Finding{Property: "C18", Signature: d2.signature(ops),
+	return Finding{Property: "C18", Signature: c18Signature(h.Spec, ops, d2),
 		What: fmt.Sprintf("the same %d operations behave differently under %s and under %s: first difference at operation %d (%s), field %s: %s  [history %s]",
 			len(ops), c18Execs[d2.A], c18Execs[d2.B], d2.Op, ops[d2.Op].Kind, d2.Field, d2.Detail, h.Note),
 		Replay: map[string]any{"Spec": h.Spec, "Ops": ops, "ExtraTargets": h.Extra, "operations": lines, "observations": execs,
@@ -707,11 +691,16 @@ func init() {
 			Opts: []Opt{{Name: "WithScopes", Scopes: serverScopes}, {Name: "WithAuthorizationCodeGrant"}}}); err != nil {
 			panic(err)
 		}
+		c18InstallHooks()
 		var hs []c18History
 		hs = append(hs, c18Corpus(ctx.R)...)
+		hs = append(hs, c18RemoteCorpus(ctx.R)...)
 		n := ctx.N(128, 2000)
 		for k := 0; k < n; k++ {
 			hs = append(hs, c18Generate(ctx.R, k))
+		}
+		for k := 0; k < ctx.N(64, 600); k++ {
+			hs = append(hs, c18GenerateRemote(ctx.R, k))
 		}
 		// the four executions of every history (independent worlds: in parallel)
 		res := make([]c18Result, len(hs))
@@ -752,7 +741,7 @@ func init() {
 					}
 				}
 				for _, d := range ds {
-					if sig := d.signature(r.H.Ops); !sigSeen[sig] { // one (shrunk) replay per signature
+					if sig := c18Signature(r.H.Spec, r.H.Ops, d); !sigSeen[sig] { // one (shrunk) replay per signature
 						sigSeen[sig] = true
 						ctx.Meta.Findings = append(ctx.Meta.Findings, c18Finding(r.H, r.Traces, d))
 					}
@@ -777,7 +766,7 @@ func init() {
 			if okN > 0 && errN > 0 {
 				seen[sb.String()] = true
 			}
-			if c18HasPseudo(r.H.Ops) {
+			if c18HasPseudo(r.H.Ops) || c18SpecRemote(r.H.Spec) {
 				ctx.Meta.Dist["histories-compared-on-the-go-side-only"]++
 				continue
 			}
@@ -812,6 +801,20 @@ func init() {
 		}
 		jb, _ := json.Marshal(jcases)
 		_ = os.WriteFile(filepath.Join(ctx.Out, "cases.json"), jb, 0o644)
+		// the directed histories about state outside the storages, as they went (first execution)
+		var tour []map[string]any
+		for _, r := range res {
+			if !strings.HasPrefix(r.H.Note, "corpus:remote:") {
+				continue
+			}
+			var lines []string
+			for i, o := range r.H.Ops {
+				lines = append(lines, fmt.Sprintf("%d: %s  ==>  %s [%d]", i, c18Describe(o), r.Traces[0].Obs[i].coq(), r.Traces[0].Obs[i].Status))
+			}
+			tour = append(tour, map[string]any{"note": r.H.Note, "agree": r.Diff == nil, "operations": lines})
+		}
+		tb, _ := json.MarshalIndent(tour, "", " ")
+		_ = os.WriteFile(filepath.Join(ctx.Out, "remote_corpus.json"), tb, 0o644)
 
 		dh, dops := c18Dcr(ctx, ctx.N(10, 60))
 		ctx.Meta.Ops += 4 * dops
@@ -820,8 +823,8 @@ func init() {
 		ctx.Meta.Cases = len(coqCases)
 		ctx.Meta.Distinct = len(seen)
 		ctx.Meta.Extra = map[string]any{"histories": len(hs), "executions_per_history": 4, "pairwise_trace_comparisons": compared,
-			"dcr_histories": dh, "cases_for_the_model": len(coqCases)}
-		ctx.Meta.Rule = "each history (corpus of the defects found + generator profiles code/refresh, PAR/sessions, CIBA, token life cycle; static or stored clients; sometimes a registration removed and restored in mid-history) is replayed under {copy, alias} x {one instance, fresh provider.New per request}; the four projected traces and the storage digests after every operation are compared pairwise; each execution's trace is a case for the model (run / run_alias_trace); distinct by projected trace; non-trivial = at least one accepted and one refused operation"
+			"dcr_histories": dh, "cases_for_the_model": len(coqCases), "histories_compared_on_the_go_side_only": ctx.Meta.Dist["histories-compared-on-the-go-side-only"]}
+		ctx.Meta.Rule = "each history (corpus of the defects found + generator profiles code/refresh, PAR/sessions, CIBA, token life cycle; static or stored clients; sometimes a registration removed and restored in mid-history) is and, for state outside the storages, directed and generated histories whose clients authenticate with private_key_jwt and publish their keys at jwks_uri (static and stored), with world events between requests - key rotation, jwks_uri outage, new contents of sector_identifier_uri / of the request object hosted at request_uri, a failing CIBA notification endpoint, DCR of jwks_uri clients, the jwt-bearer grant with and without a client - is replayed under {copy, alias} x {one instance, fresh provider.New per request}; the four projected traces and the storage digests after every operation are compared pairwise; each execution's trace is a case for the model (run / run_alias_trace); distinct by projected trace; non-trivial = at least one accepted and one refused operation"
 		for i := 0; i < len(res) && len(ctx.Meta.Samples) < 2; i += 9 {
 			var ops []string
 			for j, o := range res[i].H.Ops {
@@ -858,13 +861,10 @@ func init() {
 		if len(ops) == 0 {
 			spec, ops = fd.Spec, fd.Ops
 		}
+		c18InstallHooks()
 		trs, d := c18RunAll(spec, ops, extra, true)
 		for i, o := range ops {
-			if c18IsPseudo(o) {
-				fmt.Printf("%3d %s client %d\n", i, o.Kind, o.Client)
-			} else {
-				fmt.Printf("%3d %s\n", i, o.coq())
-			}
+			fmt.Printf("%3d %s\n", i, c18Describe(o))
 			for _, t := range trs {
 				fmt.Printf("      %-34s => %s   [%d] %s\n", t.Exec, t.Obs[i].coq(), t.Obs[i].Status, truncate(t.Obs[i].Raw, 120))
 			}
@@ -873,7 +873,7 @@ func init() {
 			fmt.Println("the four executions agree")
 			return 0
 		}
-		fmt.Printf("DIFFERENCE %s at operation %d between %s and %s: %s\n", d.signature(ops), d.Op, c18Execs[d.A], c18Execs[d.B], d.Detail)
+		fmt.Printf("DIFFERENCE %s at operation %d between %s and %s: %s\n", c18Signature(spec, ops, d), d.Op, c18Execs[d.A], c18Execs[d.B], d.Detail)
 		return 1
 	}
 }
